@@ -21,7 +21,7 @@ SBS = ("INV-SBS: this code runs only in the side-by-side layout, where every col
        "column's size estimate, which is memory-bounded (A1); the user-supplied renderer width enters col_widths only in "
        "the stacked branch (`vert_row`), which never reaches this code (into_cells' vertical branch copies one entry, "
        "append_vert_row replaces append_columns_with_borders, the shrink loop and table_width sum are under !vert_row)")
-EST = ("INV-EST-A1: size estimates are sums of display widths of document text plus prefix widths and, for tables, "
+EST = ("[any-guard] INV-EST-A1: size estimates are sums of display widths of document text plus prefix widths and, for tables, "
        "num_columns − 1 separators with num_columns bounded by INV-REMAP: memory-bounded (A1)")
 
 R = [
@@ -47,8 +47,8 @@ R = [
     (r"^render_table_tree:sum\(Iterator::map\(", EST),
     (r"^tbody_to_render_tree::\{closure:\+TableBody,cells_mut\}:Add\(<&usize as std::ops::Sub<usize>>::sub\(max_columns, num_cols\), 1_usize\)$", "num_cols >= 1 for a row that contains a zero-colspan cell (each cell counts max(colspan, 1)), so max_columns − num_cols + 1 <= max_columns"),
     # ---- css.rs
-    (r"^css::Selector::do_matches:Sub\(idx, .*from\(b\)\)$", "idx counts element siblings (<= 2^62, A1) and b is an i32 widened to i64: |idx - b| < 2^63"),
-    (r"^css::Selector::do_matches:(Rem|Div)\(idx_offset, a\)$", "signed overflow needs idx_offset == i64::MIN, but idx_offset = idx - b with idx >= 1 and b >= -2^31"),
+    (r"^css::Selector::do_matches:Sub\(idx, .*from\(b\)\)$", "[any-guard] idx counts element siblings (<= 2^62, A1) and b is an i32 widened to i64: |idx - b| < 2^63"),
+    (r"^css::Selector::do_matches:(Rem|Div)\(idx_offset, a\)$", "[any-guard] signed overflow needs idx_offset == i64::MIN, but idx_offset = idx - b with idx >= 1 and b >= -2^31"),
     # ---- css/parser.rs
     (r"^css::parser::ident_escape:Sub\(nexti, start_idx\)$", "char_indices yields strictly increasing byte indices and start_idx is the first one"),
     (r"^css::parser::ident_escape:index\(&rest, ops::Range\{start_idx, end_idx\}\)$", "both bounds are char_indices positions (or i+1 after a one-byte hex digit) of `rest`, start_idx < end_idx <= len"),
@@ -57,14 +57,14 @@ R = [
     (r"^css::parser::ident_escape:index\(&rest, ops::RangeFrom\{bytes\}\)$", "bytes = len_utf8 of the first char of `rest`"),
     (r"^css::parser::parse_token:index\(&rest, ops::RangeFrom\{num_bytes\}\)$", "num_bytes = len_utf8 of the first char of `rest`"),
     (r"^css::parser::parse_color:Mul\(.* 15_u32\) as u8\), 17_u8\)$", "a 4-bit nibble (& 15) times 17 is at most 255"),
-    (r"^css::parser::parse_integer:unwrap\(<impl std::str::FromStr for f32>", "digit1 output: one or more ASCII digits always parse as f32 (large values become inf)"),
-    (r"^css::parser::parse_decimal:unwrap\(<impl std::str::FromStr for f32>", "recognize(digit0 '.' digit1): always a valid f32 literal"),
+    (r"^css::parser::parse_integer:unwrap\(<impl std::str::FromStr for f32>", "[any-guard] digit1 output: one or more ASCII digits always parse as f32 (large values become inf)"),
+    (r"^css::parser::parse_decimal:unwrap\(<impl std::str::FromStr for f32>", "[any-guard] recognize(digit0 '.' digit1): always a valid f32 literal"),
     (r"^css::parser::parse_number:diverge\(panic\)$", "unreachable!(): sign is the output of opt(alt(tag(\"-\"), tag(\"+\"))), i.e. None, Some(\"-\") or Some(\"+\")"),
     (r"^css::parser::parse_string_token:unwrap\(<std::str::CharIndices", "parse_string_token is only called by parse_token after it saw a quote as the first char of the same string (side condition checked: sole caller)"),
     (r"^css::parser::parse_string_token:diverge\(panic\)$", "debug_assert on the opening quote: parse_token dispatches here only for '\"' and '\\'' (sole caller, checked)"),
     (r"^css::parser::parse_string_token:index\(&text, ops::RangeFrom\{\(i \+ 1_usize\)\}\)$", "i is the byte index of a one-byte char (the closing quote or a backslash) inside text"),
     (r"^css::parser::parse_string_token:index\(&text, ops::RangeFrom\{i\}\)$", "i is a char_indices position of text"),
-    (r"^css::parser::parse_nth_child_args::\{closure:val\}:Mul\(val, Sign::val", "val was parsed from unsigned decimal digits into i32 (0..=i32::MAX) and Sign::val is +1 or -1"),
+    (r"^css::parser::parse_nth_child_args::\{closure:val\}:Mul\(val, Sign::val", "[any-guard] val was parsed from unsigned decimal digits into i32 (0..=i32::MAX) and Sign::val is +1 or -1"),
     # ---- lib.rs tables
     (r"^RenderTableRow::into_cells:unwrap\(self.col_sizes\)$", "INV-ROWS: every TableRow handed to the renderer was produced by RenderTable::into_rows, which sets col_sizes = Some(..) (tr_to_render_tree's rows are consumed by tbody/table reducers; html5ever never yields a <tr> outside a table section, A2)"),
     (r"^RenderTableRow::into_cells:index\(&col_sizes, ", "INV-COLS: colno + colspan <= Σ colspan of the row <= num_columns = col_sizes.len() (num_columns is the maximum of RenderTableRow::num_cells over the rows and colspan >= 1 after the remap)"),
@@ -145,6 +145,7 @@ R = [
 def main():
     keys = {}
     mult = {}
+    nog = {}
     for cfg in ("default", "css", "css_ext", "html_trace"):
         F = load_facts(cfg)
         roots = panics.render_roots(F)
@@ -158,6 +159,7 @@ def main():
             if s.kind == "borrow" and okb and s.b.id in rp:
                 continue
             keys.setdefault(s.key, (s.span, s.text))
+            nog[s.key] = s.key_nog
             per[s.key] = per.get(s.key, 0) + 1
         for k, n in per.items():
             mult[k] = max(mult.get(k, 0), n)
@@ -168,6 +170,7 @@ def main():
            "# Named invariants: INV-LINE, INV-LEN, INV-STACK, INV-EST, INV-COLS, INV-REMAP, INV-COLSPAN1, INV-SHRINK, INV-ROWS,",
            "# INV-SPACETAG; A1/A2/A4 are the assumptions of DESIGN.md section 7."]
     missing = []
+    anyg = {}
     for k in sorted(keys, key=lambda k: keys[k][1]):
         span, text = keys[k]
         reason = None
@@ -178,7 +181,15 @@ def main():
         if reason is None:
             missing.append((span, text))
         else:
+            if reason.startswith("[any-guard]"):
+                # value-based argument: the row is keyed without the guards; sites sharing operands share it
+                kk = nog[k]
+                anyg[kk] = (anyg.get(kk, (0, text, reason))[0] + mult.get(k, 1), text, reason)
+                continue
             out.append("%s%s :: %s :: %s" % (k, " x%d" % mult[k] if mult.get(k, 1) > 1 else "", text, reason))
+    for kk in sorted(anyg, key=lambda x: anyg[x][1]):
+        n, text, reason = anyg[kk]
+        out.append("%s%s :: %s :: %s" % (kk, " x%d" % n if n > 1 else "", text, reason))
     with open(os.path.join(os.path.dirname(os.path.dirname(os.path.abspath(__file__))), "tables", "panic_sites.txt"), "w") as fh:
         fh.write("\n".join(out) + "\n")
     print("%d keys, %d rows written, %d without a reason" % (len(keys), len(out) - 5, len(missing)))
